@@ -75,6 +75,21 @@ theorem C18_failed_commit_leaves_nothing (done : List TxUnit) (body : List Stmt)
     recover (finish ⟨log, none⟩ (hist (done ++ [.txf body]))) = log ++ done.flatMap TxUnit.eff := by
   rw [C18_clean_exit _ hok]; simp [TxUnit.eff]
 
+/-- **Leaving a `with` block is not a commit**: a transaction opened with BEGIN inside
+    `with snowflake.connector.connect(...) as conn:` (or a cursor `with` block) and still open when the block ends stays
+    uncommitted – `__exit__` issues no engine call – so whichever way the process ends afterwards, a later process finds
+    exactly what was durable before the BEGIN. -/
+theorem C18_with_exit_is_not_a_commit (log : List Eff) (body : List Stmt) (hb : (body.all fun s => !s.isTxCtl && !s.isAttach) = true) :
+    calls .connExit = [] ∧
+    recover (finish ⟨log, none⟩ (.begin :: body ++ [.connExit])) = log := by
+  refine ⟨rfl, ?_⟩
+  have hq := flat_qw body (ok_body body hb)
+  have hf : flat (.begin :: body ++ [.connExit]) = [.begin] ++ flat body := by simp [flat, calls]
+  simp only [recover, finish]
+  rw [hf, run_append]
+  have h1 : (⟨log, none⟩ : Eng).run [.begin] = { disk := log, tx := some [] } := by simp [Eng.run, Eng.call]
+  rw [h1, run_qw_tx _ _ [] rfl hq]
+
 /-- **Durable means durable** (any history, well-formed or not): what is found after a kill at `k` is a prefix of
     what is found after a kill at any later point – later activity never loses or reorders committed effects. -/
 theorem C18_durable_monotone (e : Eng) (h : List Stmt) (k k' : Nat) (hkk : k ≤ k') :
